@@ -202,7 +202,18 @@ HOSTS = {
 CORE_HOSTS = ["match", "nomatch", "wild"]
 
 
+NOW = (int(time.time()) // 86400) * 86400          # the model's "now": start of today (UTC)
+DAY = 86400
+WIN = {"v": (NOW - 30 * DAY, NOW + 365 * DAY), "e": (NOW - 60 * DAY, NOW - 30 * DAY),
+       "f": (NOW + 30 * DAY, NOW + 60 * DAY)}
+NB_SET = [-631152000, -2, 0, 1, NOW - DAY]           # 1950-01-01, 1969-12-31 23:59:58, epoch, epoch+1, yesterday
+NA_SET = [-315619200, -86400, 2147483647, 2147483648, 2840140800, 253402300799]
+#          1960-01-01, 1969-12-31, 2038-01-19 03:14:07 / :08, 2060-01-01, 9999-12-31 23:59:59 (GeneralizedTime)
+
+
 def certdesc(ca, t, kind, cn, sans):
+    if t in WIN:                                    # every generated certificate carries an explicit window
+        t = "w%d_%d" % WIN[t]
     return "%d:%s:%s:%s:%s" % (ca, t, kind, "~" if cn is None else hx(cn), ",".join(sans) if sans else "-")
 
 
@@ -272,11 +283,16 @@ def hs_line(env, rng, **kw):
     # source of every keypair half, independently: server cert, server key, client cert, client key (0 mem, 1 file)
     for k in ("scs", "sks", "ccs", "cks"):
         extra.append("%s=%d" % (k, kw.get(k, rng.below(2))))
+    extra.append("now=%d" % NOW)
     if "scert_desc" in kw:
         scert = kw["scert_desc"](p["cca"])
     else:
         scert = server_cert(kw.get("scert", "trusted"), p["cca"], kw.get("names", "std"))
     ccert = client_cert(kw.get("ccert", "none"), p["sca"])
+    if "swin" in kw:
+        scert = certdesc(p["cca"], "w%d_%d" % kw["swin"], "s", CN, SANS_STD)
+    if "cwin" in kw:
+        ccert = certdesc(p["sca"], "w%d_%d" % kw["cwin"], "c", "client", [])
     host = kw["host_raw"] if "host_raw" in kw else HOSTS[kw.get("host", "match")]
     words = ["hs"] + ["%s=%d" % (k, p[k]) for k in
                       ("ciph", "cp", "sp", "vc", "vn", "vt", "svc", "svt", "cca", "sca", "cam", "sam", "kpm",
@@ -381,6 +397,21 @@ def ip_family(env, rng):
                     out.append([hs_line(env, rng, ciph=0, cp=24, sp=rng.choice([8, 24]), vc=vc, vn=vn, vt=1, svc=0,
                                         ccert="none", host_raw=host, n=rng.below(100), noise=0,
                                         scert_desc=(lambda cca, cn=cn, sans=sans: certdesc(cca, "v", "s", cn, sans)))])
+    return out
+
+
+def window_family(env, rng):
+    """validity windows incl. dates before 1970 and after 2038, for the server certificate (seen by a verifying
+    client) and for the client certificate (seen by a verify_client server), verify_time on and off"""
+    out = []
+    for nb in NB_SET:
+        for na in NA_SET:
+            for vt in (0, 1):
+                out.append([hs_line(env, rng, ciph=0, cp=24, sp=rng.choice([8, 24]), vc=1, vn=1, vt=vt, svc=0,
+                                    ccert="none", host="match", swin=(nb, na), n=rng.below(100))])
+                out.append([hs_line(env, rng, ciph=0, cp=24, sp=rng.choice([8, 24]), vc=1, vn=1, vt=1, svt=vt,
+                                    svc=rng.choice([1, 2]), host="match", scert="trusted", cwin=(nb, na),
+                                    n=rng.below(100))])
     return out
 
 
@@ -639,6 +670,10 @@ def run_checked(ck, run, env, ca0, cipher_ok, curve_nid):
         "3 x 3 x 16 combinations in the `sources` family) -- FRAME CONDITION: the decision model has no source input, "
         "so the outcome must not depend on it; IP-literal server names (127.0.0.1, ::1, 192.168.1.1) x 9 CN/SAN "
         "shapes x verify_name x verify_cert with the C08 model as name oracle; "
+        "every generated certificate carries an explicit validity window (epoch seconds, the model gets `now`); the "
+        "validity-windows family crosses notBefore in {1950, 1969-12-31 23:59:58, 0, 1, yesterday} with notAfter in "
+        "{1960, 1969-12-31, 2^31-1, 2^31, 2060, 9999-12-31} x verify_time for server and client certificates, and the "
+        "times reported by tls_peer_cert_notbefore/notafter are compared (pt=); "
         "an endpoint whose handshake was refused keeps calling tls_write/tls_read 4 more times (after=crossed if "
         "anything is accepted or delivered); "
         "inj case = one wrapper call (or tls_handshake followed by one I/O call) on a hand-set state with 3 scripted "
@@ -654,6 +689,8 @@ def run_checked(ck, run, env, ca0, cipher_ok, curve_nid):
         "OpenSSL permits per cipher setting: default=%d, DEFAULT:@SECLEVEL=0=%d (TLS_PROTOCOL_* masks, probed)"
         % (env.perm[0], env.perm[1]),
         "tls_get_conninfo does not fail (allocation failure is property C10)",
+        "a validity date of exactly 1969-12-31 23:59:59 (time_t -1) is not generated: timegm()'s error value is "
+        "indistinguishable from it in the unchanged library (tls_get_peer_cert_times, tls_asn1_parse_time)",
         "frame condition: where a CA / certificate / key comes from (file, memory, hashed directory) is not an input "
         "of the decision model"]
     ck.cov["openssl_permitted_masks"] = {"default": env.perm[0], "seclevel0": env.perm[1]}
@@ -700,6 +737,13 @@ def run_checked(ck, run, env, ca0, cipher_ok, curve_nid):
     nfail += run.par_compare(ipf, "ip-names", chunk=18, workers=12)
     ck.cov["ip_name_family_cases"] = len(ipf)
     ck.sample(ipf[5][0])
+
+    # validity windows (before 1970, after 2038, GeneralizedTime) x verify_time, both certificate roles;
+    # the times reported by tls_peer_cert_notbefore/notafter are compared as well (pt=)
+    wf = window_family(env, rng)
+    nfail += run.par_compare(wf, "validity-windows", chunk=20, workers=12)
+    ck.cov["validity_window_family_cases"] = len(wf)
+    ck.sample(wf[3][0])
 
     # reconfigure family: the outcome is that of the LAST configuration alone
     rf = reconfigure_family(env, rng)
